@@ -60,7 +60,7 @@ func run(sc sw.Scenario, dir string) world.Verdict {
 	return sw.InBubble(func() world.Verdict {
 		root, _ := os.MkdirTemp(dir, "c08")
 		defer os.RemoveAll(root)
-		w, err := sw.New(world.NodeOpts{ChainID: "c08-chain", InitialHeight: sc.InitialHeight, RootDir: root, MempoolTTL: sc.MempoolTTL, MaxPending: sc.MaxPending, ViaDAClient: sc.ViaClient, DAClientLimit: sc.ClientLimit, Prometheus: sc.Prometheus})
+		w, err := sw.New(world.NodeOpts{ChainID: "c08-chain", InitialHeight: sc.InitialHeight, RootDir: root, MempoolTTL: sc.MempoolTTL, MaxPending: sc.MaxPending, ViaDAClient: sc.ViaClient, DAClientLimit: sc.ClientLimit, Prometheus: sc.Prometheus, DBPath: sc.DBPath})
 		if err != nil {
 			return world.Fail("C08/start", "NewManager failed: %v", err)
 		}
